@@ -367,7 +367,9 @@ class Importance(CellModifierInput):
                         f"Importance data not available for cell {cell.number} for particle: "
                         f"{particle}, though it is in the problem"
                     )
-                new_vals[particle].append(tree["data"][0])
+                new_vals[particle].append(
+                    self._without_cell_comments(cell.importance, tree["data"][0])
+                )
                 if len(particle_pairings[particle]) == 0:
                     particle_pairings[particle] = tree["classifier"].particles.particles
                 else:
